@@ -27,6 +27,13 @@ def weird_value(rng, depth=2):
         for _ in range(rng.choice([0, 0, 1, 2, 3])):
             m = ('l', [V.scalar(rng), m] if rng.random() < 0.5 else [m])
         return m
+    if r < 0.37:
+        # a tagged KEY (alone, or beside plain keys; also nested): a conversion error like a tagged value
+        tk = ('t', rng.choice(['!secret', '!foo']), rng.choice([S('pw'), I(1)]))
+        m = ('m', [(tk, V.scalar(rng))] + ([(S('z'), I(1))] if rng.random() < 0.5 else []))
+        if rng.random() < 0.4:
+            m = rng.choice([('l', [m]), ('m', [(S('n'), m)])])
+        return m
     if r < 0.44:
         return S(rng.choice(['${', '${}', '${a', '$[x]', '${a}}${', '\\${', '${${}}', '${x:y:z}', '${.}', '${:}', '${a:}', '${~}', '${emb}']))
     if depth > 0 and r < 0.7:
